@@ -16,13 +16,19 @@ waiting process is current (`reach_awaitOk`), progress is up to date whenever no
 (`reach_upToDate`), an ended process has reached `until` (`reach_doneOk`).
 `finitely_many_steps`: in every reachable state that has not failed, a simulator of group depth `d` has
 begun at most `until * max_loop_iterations ^ (d - 1)` steps (all configurations with `WFShape`).
-NOT proved: deadlock freedom for grouped (tiered) configurations, and a bound on the number of
-scheduler transitions between two steps; those are covered by the correspondence runs and the implementation
+`terminates`: a run from the initial state that has not failed and contains no asynchronous request has at
+most `runBound cfg` actions (all configurations; a potential that every action strictly decreases,
+`Sched/Terminate.lean`): the scheduler cannot go on for ever, with or without groups.
+`finished_when_stuck_flat`: in a flat configuration a reachable state in which nothing can move and no
+simulator owes an answer is a state in which every process has ended.  Together: every run of a flat
+configuration with answering simulators ends, after boundedly many actions, with every process ended.
+NOT proved: deadlock freedom for grouped (tiered) configurations; those are covered by the correspondence runs and the implementation
 monitor (deadlock = idle event loop with unfinished `run()`) only.
 -/
 import MosaikProofs.Sched.Errors
 import MosaikProofs.Sched.Deadlock
 import MosaikProofs.Sched.Bound
+import MosaikProofs.Sched.Terminate
 import MosaikProofs.Properties.C01
 namespace Mosaik.C05
 open Mosaik
@@ -94,6 +100,18 @@ theorem finitely_many_steps {cfg : Cfg} (hw : WFCfg cfg) (hs : WFShape cfg) {s :
     (p : Sid) (hp : p < cfg.n) : (s.sims p).begun.length ≤ cfg.until_ * cfg.maxLoop ^ ((cfg.sim p).depth - 1) :=
   steps_bounded hw hs hr hnf p hp
 
+/-- **termination** (statement and proof: `Sched/Terminate.lean`) -/
+theorem terminates {cfg : Cfg} (hw : WFCfg cfg) (hs : WFShape cfg) (as : List Action) {s : State}
+    (he : exec cfg (initState cfg) as = some s) (hnf : s.failed = none) (hsch : ∀ a ∈ as, a.sched) :
+    as.length ≤ runBound cfg :=
+  run_length_bounded hw hs as he hnf hsch
+
+/-- every scheduling action strictly decreases the potential -/
+theorem every_action_decreases_potential {cfg : Cfg} (hw : WFCfg cfg) (hs : WFShape cfg) {s s' : State} {a : Action}
+    (hr : Reach cfg s) (hnf0 : s.failed = none) (h : step cfg s a = some s') (hnf : s'.failed = none) (hsch : a.sched) :
+    totalPotential cfg s' + 1 ≤ totalPotential cfg s :=
+  potential_decreases hw hs hr hnf0 h hnf hsch
+
 /-- **deadlock freedom, flat configurations** (statement and proof: `Sched/Deadlock.lean`) -/
 theorem deadlock_free_flat {cfg : Cfg} (hw : WFCfg cfg) (hs : WFShape cfg) {rank : Sid → Nat} (hfl : Flat cfg rank)
     {s : State} (hr : Reach cfg s) (hnf : s.failed = none) (hsome : ∃ p, p < cfg.n ∧ (s.sims p).pc ≠ .done) :
@@ -101,6 +119,26 @@ theorem deadlock_free_flat {cfg : Cfg} (hw : WFCfg cfg) (hs : WFShape cfg) {rank
     ((∃ p, (step cfg s (.wake p)).isSome = true) ∨ (∃ p, (step cfg s (.deps p)).isSome = true)) ∨
     (∃ p, p < cfg.n ∧ ((s.sims p).pc = .inStep ∨ (s.sims p).pc = .inGet)) :=
   Mosaik.deadlock_free_flat hw hs hfl hr hnf hsome
+
+/-- in a flat configuration the scheduler is stuck only when everything has ended -/
+theorem finished_when_stuck_flat {cfg : Cfg} (hw : WFCfg cfg) (hs : WFShape cfg) {rank : Sid → Nat} (hfl : Flat cfg rank)
+    {s : State} (hr : Reach cfg s) (hnf : s.failed = none)
+    (hstuck : ∀ p, (step cfg s (.start p)).isSome = false ∧ (step cfg s (.wake p)).isSome = false ∧
+      (step cfg s (.deps p)).isSome = false)
+    (hidle : ∀ p, p < cfg.n → (s.sims p).pc ≠ .inStep ∧ (s.sims p).pc ≠ .inGet) :
+    ∀ p, p < cfg.n → (s.sims p).pc = .done := by
+  intro p hp
+  cases hpc : (s.sims p).pc with
+  | done => rfl
+  | _ =>
+    exfalso
+    rcases Mosaik.deadlock_free_flat hw hs hfl hr hnf ⟨p, hp, by rw [hpc]; simp⟩ with ⟨q, hq⟩ | (⟨q, hq⟩ | ⟨q, hq⟩) | ⟨q, hq, hb⟩
+    · rw [(hstuck q).1] at hq; cases hq
+    · rw [(hstuck q).2.1] at hq; cases hq
+    · rw [(hstuck q).2.2] at hq; cases hq
+    · rcases hb with hb | hb
+      · exact (hidle q hq).1 hb
+      · exact (hidle q hq).2 hb
 
 /-- a blocked simulator is held up by a strictly smaller one (the step of the descent) -/
 theorem blocked_by_smaller {cfg : Cfg} (hw : WFCfg cfg) (hs : WFShape cfg) {rank : Sid → Nat} (hfl : Flat cfg rank)
